@@ -73,13 +73,17 @@ fn check_event(e: &Ev, op: usize, name: S, nl: usize, ls: &[(&'static str, &'sta
 }
 
 fn prefix(op_lo: usize) {
+    prefix_ops(op_lo, 3)
+}
+
+fn prefix_ops(op_lo: usize, nops: usize) {
     reset();
     let pfx = crate::s1();
     let name = crate::s1();
     let nl = if op_lo == 0 { 0 } else { nd::below(2) };
     let ls = [(crate::s1(), crate::s1()), ("", "")];
     let unit = if op_lo == 0 { any_unit() } else { None };
-    let op = op_lo + nd::below(3);
+    let op = if nops == 1 { op_lo } else { op_lo + nd::below(nops) };
     let layered = PrefixLayer::new(pfx).layer(Rec::new(1));
     drive(&layered, name, nl, &ls, unit, op);
     let expect_events = if op < 3 { 1 } else { 2 };
@@ -184,6 +188,12 @@ harnesses! {
     fn c13_prefix_describe() { prefix(0) }
     #[cfg_attr(kani, kani::unwind(8))]
     fn c13_prefix_register() { prefix(3) }
+    #[cfg_attr(kani, kani::unwind(8))]
+    fn c13_prefix_register_counter() { prefix_ops(3, 1) }
+    #[cfg_attr(kani, kani::unwind(8))]
+    fn c13_prefix_register_gauge() { prefix_ops(4, 1) }
+    #[cfg_attr(kani, kani::unwind(8))]
+    fn c13_prefix_register_histogram() { prefix_ops(5, 1) }
     #[cfg_attr(kani, kani::unwind(8))]
     fn c13_fanout_0() { fanout(0, nd::below(2) * 3) }
     #[cfg_attr(kani, kani::unwind(8))]
